@@ -224,7 +224,7 @@ def features(rec) -> list:
                     if "serialize_by_alias" in dopts and "by_alias_flag" in fl and not ("by_alias" in kws and "by_alias_flag" in top):
                         out.add("call-dialect-option-shadowed-by-flag-default")
     inp = rec.get("input")
-    if inp is not None and rec.get("clause") in ("wire", "not-basic", "json-dumps", "roundtrip", "encode-raises"):
+    if inp is not None and rec.get("clause") in ("wire", "not-basic", "json-dumps", "roundtrip", "encode-raises", "schema-rejects-output"):
         try:
             _union_misdispatch(T, inp, out)
         except Exception:  # noqa: BLE001
@@ -299,7 +299,9 @@ class Report:
 
     # -- output
     def finish(self, extra_cov: dict | None = None) -> int:
-        os.makedirs(os.path.join(VERIF, "replays", self.prop), exist_ok=True)
+        # seeded-change trials (VERIF_EVIDENCE_DIR set) keep their replay files next to their evidence, not under /verif/replays
+        rdir = os.path.join(os.environ["VERIF_EVIDENCE_DIR"], "replays") if os.environ.get("VERIF_EVIDENCE_DIR") else os.path.join(VERIF, "replays")
+        os.makedirs(os.path.join(rdir, self.prop), exist_ok=True)
         lines = []
         for k in self.known:
             if k["id"] in self.known_hits:
@@ -311,7 +313,7 @@ class Report:
             if h in seen:
                 continue
             seen.add(h)
-            path = os.path.join(VERIF, "replays", self.prop, h + ".json")
+            path = os.path.join(rdir, self.prop, h + ".json")
             if nshown < 25:
                 with open(path, "w") as fh:
                     json.dump(_jsonable(rec), fh, indent=1)
